@@ -24,6 +24,8 @@ RULE = (
     "Distinct by source text."
 )
 ASSUMPTIONS = [
+    "First() is applied to sequences of packages, never to a sequence of sequences of packages (First(First(..))[i] inside one "
+    "stage is not inter-stage packaging and is not resolved by the simplifier; excluded from the domain).",
     "The data model has no subscriptable members and no member whose name starts with f_, so any remaining Subscript or "
     "f_ attribute is a left-over projection.",
     "In the final-package variant constructions may remain only in number <= the tuple/list/dict constructors in the "
@@ -65,7 +67,7 @@ def _has_seq(t):
 @st.composite
 def _case(draw, maxstages):
     naming = draw(st.sampled_from(["distinct", "same", "reuse", "reuse", "argn", "astnames"]))
-    cfg = typed.Cfg(naming=naming, method_form=0.0, odd_selectors=False, ifexp=draw(st.booleans()))
+    cfg = typed.Cfg(naming=naming, method_form=0.0, odd_selectors=False, ifexp=draw(st.booleans()), first_on_seq=False)
     cx = typed.Ctx(draw, cfg)
     env = [("ds", typed.S(typed.EVT))]
     n = draw(st.integers(2, maxstages))
